@@ -30,6 +30,10 @@ def build_cases(tier, seed):
             # interruptions only: instructions of every other kind (many of them refused) reach vehicles on their way to a
             # request, but trips are handed out by the built-in dispatcher alone, so "at most one vehicle per request" applies
             ctrl = hostile_stack(p=0.3, builtin=True, kinds=["Idle", "DispatchStation", "ChargeStation", "ChargeBase", "Reposition", "ReserveBase", "ReserveBase", "DispatchBase"])
+        if i % 8 == 5:
+            # a client that repeats the dispatch of vehicles under way (re-planning): same vehicle, same request - the pairings
+            # are still the built-in dispatcher's, so "at most one vehicle per request" applies
+            ctrl = {"stack": ["Dispatcher", "ChargingFleetManager", {"resend": {"p": 0.3}}]}
         opts = {}
         if i % 8 in (2, 6):
             prof["fleets"] = [2, 3][(i // 8) % 2]
